@@ -63,6 +63,10 @@ impl InterfaceInner {
                 };
                 self.icmpv4_reply(ipv4_repr, icmpv4_reply_repr)
             }
+            // An ICMPv6 error is never sent in answer to a packet destined to a multicast
+            // address (RFC 4443 section 2.4 (e.3)).
+            #[cfg(feature = "proto-ipv6")]
+            IpRepr::Ipv6(ipv6_repr) if ipv6_repr.dst_addr.is_multicast() => None,
             #[cfg(feature = "proto-ipv6")]
             IpRepr::Ipv6(ipv6_repr) => {
                 let payload_len =
